@@ -39,6 +39,26 @@ pub fn judge_split<V: Variant>(data: &[u8], cuts: &[usize]) -> Result<u64, Strin
     Ok(outcomes_fp(&a.1))
 }
 
+/// Feeds `pieces` (lengths) of the stream to a fresh generator one update each and compares
+/// processed_len and all 32 finalizations with the reference model fed the same bytes.
+pub fn judge_pieces<V: Variant>(st: Stream, pieces: &[usize]) -> Result<u64, String> {
+    let total: usize = pieces.iter().sum();
+    let data = st.bytes(0, total);
+    let mut g = V::new_gen();
+    let mut off = 0usize;
+    for &p in pieces {
+        catch(|| g.update(&data[off..off + p])).map_err(|e| format!("{}: update of a {p}-byte piece (pieces {pieces:?}) panicked: {e}", V::NAME))?;
+        off += p;
+    }
+    let r = ref_fed::<V>(&data);
+    let expect_len = if r.n <= crate::refmodel::tables::MAX_LEN { Some(r.n as u32) } else { None };
+    if g.processed_len() != expect_len {
+        return Err(format!("{}: pieces {pieces:?}: processed_len {:?} but reference {:?}", V::NAME, g.processed_len(), expect_len));
+    }
+    let outs = compare_all_opts::<V>(&g, &r).map_err(|e| format!("{}: pieces {pieces:?} of stream {}: {e}", V::NAME, st.name()))?;
+    Ok(outcomes_fp(&outs))
+}
+
 /// Enumerates all non-decreasing cut vectors of length `k` over 0..=n by index.
 fn cuts_by_index(n: usize, k: usize, mut idx: u64) -> Vec<usize> {
     // combinations with repetition of k values from n+1, in lexicographic order
@@ -96,14 +116,14 @@ pub fn run(r: &mut Report, ctx: &Ctx) {
         r.section(
             "histories",
             "explicit-state search (stateright BFS) over operation histories on the real generator through the public API: from every reachable state, Update(k) for every piece length in the alphabet (bytes by absolute stream offset), FinalizeAll (all 32 options, twice; must not disturb the state) and CloneSwap (continue on the clone); states merge only when the real generators' complete Debug snapshots are equal; invariant on every state: processed_len, all 32 finalizations equal the reference, and the same after every suffix in {1,3,5,64}; one model instance per (variant, stream); states = unique real states, transitions = generated successor states; non-trivial = unique states",
-            &format!("horizon n <= {horizon}, pieces {:?}, 5 streams x 5 variants; all histories over the alphabet (unbounded depth)", pieces),
+            &format!("horizon n <= {horizon}, pieces {:?}, 6 streams x 5 variants; all histories over the alphabet (unbounded depth)", pieces),
             true,
             |s| {
                 let streams = &streams;
                 let pieces = &pieces;
                 let suffixes = &suffixes;
                 let results = std::sync::Mutex::new(Vec::new());
-                s.acc = par_for(25, 1, |idx, acc| {
+                s.acc = par_for(5 * streams.len() as u64, 1, |idx, acc| {
                     let st = streams[(idx / 5) as usize];
                     fn go<V: Variant>(st: Stream, horizon: u64, pieces: &[u32], suffixes: &[u32], threads: usize) -> ExploreResult {
                         explore(GenModel::<V>::fresh(st, horizon, pieces.to_vec(), suffixes.to_vec()), threads)
@@ -131,7 +151,7 @@ pub fn run(r: &mut Report, ctx: &Ctx) {
                 }
                 // determinism of the search: repeat with 16 threads, counts must match
                 let results = results.into_inner().unwrap();
-                let recheck: Vec<u64> = if s.acc.viol.is_some() { vec![] } else if quick { vec![0, 6, 12, 18, 24] } else { (0..25).collect() };
+                let recheck: Vec<u64> = if s.acc.viol.is_some() { vec![] } else if quick { vec![0, 6, 12, 18, 24, 25] } else { (0..5 * streams.len() as u64).collect() };
                 for idx in recheck {
                     let st = streams[(idx / 5) as usize];
                     fn go<V: Variant>(st: Stream, horizon: u64, pieces: &[u32], suffixes: &[u32], threads: usize) -> ExploreResult {
@@ -301,21 +321,63 @@ pub fn run(r: &mut Report, ctx: &Ctx) {
         );
     }
 
+    if ctx.want("piece-thresholds") {
+        // a fast path keyed on "this piece is at least 2^k bytes" needs a piece at that threshold, in every tail fill level
+        let kmax: u32 = if quick { 20 } else { 24 };
+        let prefills: [usize; 7] = [0, 1, 2, 3, 4, 5, 67];
+        let deltas: [i64; 5] = [-1, 0, 1, 4, 5];
+        let ks: Vec<u32> = (5..=kmax).collect();
+        let per_variant = (2 * prefills.len() * deltas.len() * ks.len()) as u64;
+        r.section(
+            "piece-thresholds",
+            "one large update at every power-of-two threshold: pre-fill of p bytes (every tail fill level), then ONE piece of 2^k + d bytes, then 3 more bytes or nothing (so the large call is also the last one), on a fresh real generator vs the byte-at-a-time reference fed the same bytes: processed_len and all 32 finalizations; distinct by enumeration; non-trivial = all",
+            &format!("k in 5..={kmax}, d in {{-1,0,1,4,5}}, p in {{0,1,2,3,4,5,67}}, 5 variants, stream S0 (S3 for d = 0)"),
+            true,
+            |s| {
+                let ks = &ks;
+                // largest pieces first so that the work is balanced
+                s.acc = par_for(per_variant * 5, 1, |idx, acc| {
+                    let v = (idx % 5) as usize;
+                    let (i, with_suffix) = (idx / 10, (idx / 5) % 2 == 1);
+                    let d = deltas[(i % 5) as usize];
+                    let p = prefills[((i / 5) % 7) as usize];
+                    let k = ks[ks.len() - 1 - (i / 35) as usize];
+                    let piece = ((1i64 << k) + d) as usize;
+                    let st = if d == 0 { Stream::A40e } else { Stream::Mixed };
+                    let pieces_all = [p, piece, 3];
+                    let pieces = &pieces_all[..if with_suffix { 3 } else { 2 }];
+                    acc.evals += 1;
+                    acc.transitions += 3 + 33;
+                    acc.nontrivial += 1;
+                    match with_variant!(v, judge_pieces(st, pieces)) {
+                        Ok(fp) => {
+                            acc.outcomes.insert(fp);
+                            if idx % 211 == 0 {
+                                acc.sample(idx, || json!({"variant": VARIANT_NAMES[v], "stream": st.name(), "pieces": pieces}));
+                            }
+                        }
+                        Err(e) => acc.fail(idx, "piece-thresholds", e, json!({"kind": "pieces", "variant": VARIANT_NAMES[v], "stream": st.name(), "pieces": pieces})),
+                    }
+                });
+            },
+        );
+    }
+
     if ctx.want("splits") {
-        let streams = [Stream::Mixed, Stream::A40e];
+        let streams = [Stream::Mixed, Stream::A40e, Stream::Runs];
         let plan: Vec<(usize, usize)> = if quick { vec![(13, 3), (64, 3), (140, 2)] } else { vec![(13, 4), (64, 4), (140, 3), (600, 2)] };
         for (len, k) in plan {
             let total = cuts_count(len, k);
             r.section(
                 &format!("splits-{len}x{k}"),
                 "every way to split a fixed input at up to k cut points (empty pieces allowed) into successive update calls vs a single update: processed_len and all 32 finalizations (differential, no expected values); distinct by enumeration; non-trivial = all",
-                &format!("{len} bytes, {k} cuts: {total} splits x 2 streams x 5 variants"),
+                &format!("{len} bytes, {k} cuts: {total} splits x 3 streams x 5 variants"),
                 true,
                 |s| {
-                    s.acc = par_for(total * 10, 64, |idx, acc| {
+                    s.acc = par_for(total * 15, 64, |idx, acc| {
                         let v = (idx % 5) as usize;
-                        let st = streams[((idx / 5) % 2) as usize];
-                        let cuts = cuts_by_index(len, k, idx / 10);
+                        let st = streams[((idx / 5) % 3) as usize];
+                        let cuts = cuts_by_index(len, k, idx / 15);
                         let data = st.bytes(0, len);
                         acc.evals += 1;
                         acc.transitions += (k + 1) as u64 + 33;
@@ -347,6 +409,10 @@ pub fn replay(case: &Value) -> Result<(), String> {
             let cuts: Vec<usize> = case["cuts"].as_array().ok_or("cuts")?.iter().map(|x| x.as_u64().unwrap() as usize).collect();
             let data = st.bytes(0, len);
             with_variant!(v, judge_split(&data, &cuts)).map(|_| ())
+        }
+        "pieces" => {
+            let pieces: Vec<usize> = case["pieces"].as_array().ok_or("pieces")?.iter().map(|x| x.as_u64().unwrap() as usize).collect();
+            with_variant!(v, judge_pieces(st, &pieces)).map(|_| ())
         }
         #[cfg(feature = "explore")]
         "history" => {
